@@ -43,6 +43,8 @@ class Eval:
         uninterpreted atom named after the call (e.g. std::mem::take(..))"""
         self.inputs = [(re.compile(rx), v) for rx, v in inputs]
         self.opaque = re.compile(opaque) if opaque else None
+        self.out = []
+        self.skip_loops = False
 
     # ---- expressions
     def ex(self, e, env):
@@ -87,14 +89,45 @@ class Eval:
             if v[0] == "ctor" and v[1] in ("Ok", "Some") and len(v[2]) == 1:
                 return v[2][0]
             raise Unknown("? on " + str(v))
+        if k in ("ForLoop", "While", "Loop"):
+            if self.skip_loops:
+                self.out.append(("loop",))
+                return UNIT
+            raise Unknown("loop")
         if k == "Lit":
-            return A("lit:" + e["text"])
+            v = lit_value(e["text"])
+            return v if v is not None else A("lit:" + e["text"])
+        if k == "Cast":
+            v = self.ex(e["expr"], env)
+            if v[0] == "char":
+                return ("int", v[1])
+            return v
+        if k == "MethodCall" and e["method"] in ("write_str", "push_str", "write_char", "push") and len(e["args"]) == 1:
+            v = self.ex(e["args"][0], env)
+            self.out.append(v)
+            return C("Ok", UNIT) if e["method"].startswith("write") else UNIT
+        if k == "Macro" and e["path"] in ("write", "writeln") and "args" in e and len(e["args"]) >= 2:
+            fmtv = self.ex(e["args"][1], env)
+            vals = [self.ex(a, env) for a in e["args"][2:]]
+            self.out.append(("fmt", fmtv, tuple(vals)))
+            return C("Ok", UNIT)
         if k == "Macro" and e["path"] in ("unreachable", "panic", "unimplemented", "todo"):
             return C("!panic")
         return A("expr:" + t[:60])
 
     def cond(self, e, env):
         k = e["k"]
+        if k == "Binary" and e["op"] in ("<", "<=", ">", ">="):
+            a, b = self.ex(e["left"], env), self.ex(e["right"], env)
+            if a[0] in ("int", "char") and b[0] in ("int", "char"):
+                x, y = a[1], b[1]
+                return {"<": x < y, "<=": x <= y, ">": x > y, ">=": x >= y}[e["op"]]
+            raise Unknown("ordering comparison of non numbers")
+        if k == "MethodCall" and e["method"] == "is_control" and not e["args"]:
+            v = self.ex(e["receiver"], env)
+            if v[0] == "char":
+                return v[1] < 0x20 or 0x7f <= v[1] <= 0x9f
+            raise Unknown("is_control on non char")
         if k == "Binary" and e["op"] in ("==", "!="):
             a, b = self.ex(e["left"], env), self.ex(e["right"], env)
             if a[0] == "atom" and a[1].startswith("expr:") or b[0] == "atom" and b[1].startswith("expr:"):
@@ -162,6 +195,23 @@ class Eval:
             return None
         if k in ("PRef", "PType"):
             return self.pat(p["pat"], v, env)
+        if k == "PLit":
+            lv = lit_value(p["text"].strip())
+            if lv is None:
+                raise Unknown("literal pattern " + p["text"])
+            return {} if lv == v else None
+        if k == "PRange":
+            m = re.match(r"^(.*?)\.\.(=?)(.*)$", p["text"].replace(" ", ""))
+            lo = lit_value(m.group(1)) if m and m.group(1) else None
+            hi = lit_value(m.group(3)) if m and m.group(3) else None
+            if v[0] not in ("char", "int"):
+                raise Unknown("range pattern on non number")
+            x = v[1]
+            if lo is not None and x < lo[1]:
+                return None
+            if hi is not None and (x > hi[1] or (x == hi[1] and m.group(2) != "=")):
+                return None
+            return {}
         raise Unknown("pattern " + show_pat(p))
 
     def _seq(self, pats, vals, env):
@@ -270,3 +320,180 @@ def fmt(v):
     if v[0] == "tuple":
         return "(" + ", ".join(fmt(a) for a in v[1]) + ")"
     return str(v)
+
+
+# ---------------------------------------------------------------------------------------------- literals and escapers
+
+def _unescape(body):
+    out = []
+    i = 0
+    while i < len(body):
+        c = body[i]
+        if c != "\\":
+            out.append(c)
+            i += 1
+            continue
+        n = body[i + 1]
+        if n in "nrt0\\'\"":
+            out.append({"n": "\n", "r": "\r", "t": "\t", "0": "\0", "\\": "\\", "'": "'", '"': '"'}[n])
+            i += 2
+        elif n == "x":
+            out.append(chr(int(body[i + 2:i + 4], 16)))
+            i += 4
+        elif n == "u":
+            j = body.index("}", i)
+            out.append(chr(int(body[i + 3:j].replace("_", ""), 16)))
+            i = j + 1
+        else:
+            out.append(n)
+            i += 2
+    return "".join(out)
+
+
+def lit_value(text):
+    """value of a Rust char / string / integer literal"""
+    t = text.strip()
+    if len(t) >= 3 and t[0] == "'" and t[-1] == "'":
+        u = _unescape(t[1:-1])
+        return ("char", ord(u)) if len(u) == 1 else None
+    if len(t) >= 2 and t[0] == '"' and t[-1] == '"':
+        return ("str", _unescape(t[1:-1]))
+    m = re.match(r"^(0x[0-9a-fA-F_]+|0b[01_]+|0o[0-7_]+|[0-9][0-9_]*)(u8|u16|u32|u64|usize|i32|i64|isize)?$", t)
+    if m:
+        return ("int", int(m.group(1).replace("_", ""), 0))
+    return None
+
+
+def render(events):
+    """text produced by a list of output events (pushes of strings / chars, write!(..) with {} / {:04x} / {:x})"""
+    out = []
+    for ev in events:
+        if ev[0] == "str":
+            out.append(ev[1])
+        elif ev[0] == "char":
+            out.append(chr(ev[1]))
+        elif ev[0] == "fmt" and ev[1][0] == "str":
+            args = list(ev[2])
+            def sub(m):
+                a = args.pop(0)
+                spec = m.group(1) or ""
+                if a[0] not in ("int", "char", "str"):
+                    raise Unknown("format argument")
+                if spec == "":
+                    return str(a[1]) if a[0] != "char" else chr(a[1])
+                mm = re.match(r"^:(0?)(\d*)([xX]?)$", spec)
+                if not mm:
+                    raise Unknown("format spec " + spec)
+                v = a[1]
+                body = format(v, "x" if mm.group(3) == "x" else ("X" if mm.group(3) == "X" else "d"))
+                w = int(mm.group(2)) if mm.group(2) else 0
+                return body.rjust(w, "0" if mm.group(1) else " ")
+            out.append(re.sub(r"\{(:[^}]*)?\}", sub, ev[1][1].replace("{{", "\x00").replace("}}", "\x01")).replace("\x00", "{").replace("\x01", "}"))
+        else:
+            raise Unknown("output event %s" % (ev,))
+    return "".join(out)
+
+
+def char_classes(fn_body):
+    """representatives of the partition of `char` that the code can distinguish: every character literal it mentions
+    and, for every integer it compares a code point with, that value and its neighbours; plus fixed probes"""
+    from astlib import walk
+    reps = {0x22, 0x5c, 0x0a, 0x0d, 0x09, 0x00, 0x01, 0x08, 0x0c, 0x1f, 0x20, 0x21, 0x2f, 0x3c, 0x3e, 0x26, 0x27, 0x61, 0x7f, 0x80, 0x9f, 0xa0, 0x2028, 0x2029, 0x202a, 0xfffd, 0x1f600}
+    for n in walk(fn_body):
+        txts = []
+        if n["k"] in ("Lit", "PLit"):
+            txts.append(n["text"])
+        elif n["k"] == "PRange":
+            txts += [x for x in re.split(r"\.\.=?", n["text"].replace(" ", "")) if x]
+        for t in txts:
+            v = lit_value(t)
+            if v and v[0] == "char":
+                reps |= {v[1]}
+            if v and v[0] == "int" and 0 <= v[1] < 0x110000:
+                reps |= {max(0, v[1] - 1), v[1], min(0x10ffff, v[1] + 1)}
+    return sorted(c for c in reps if not (0xd800 <= c <= 0xdfff))
+
+
+def escaper_table(loop_body, var_pat, reps, fixed_inputs=None):
+    """{code point: text written for that character | 'UNKNOWN: ..'}: the per-character body of an escaping loop is
+    evaluated for every representative character"""
+    out = {}
+    for cp in reps:
+        ev = Eval(list(fixed_inputs or []))
+        env = {}
+        b = ev.pat(var_pat, ("char", cp), {})
+        env.update(b or {})
+        try:
+            try:
+                ev.ex(loop_body, env)
+            except Ret:
+                pass
+            out[cp] = render(ev.out)
+        except Unknown as u:
+            out[cp] = "UNKNOWN: %s" % u
+    return out
+
+
+def escaper_spec(fn_body, str_param, kind):
+    """Check an escaping function against the *specification* of its target syntax, for every distinguishable class
+    of characters: (ok, [problems], facts). kind: 'json' (a JSON string) or 'js-in-script' (a JS string literal inside
+    an HTML <script> element). The function must write `"`, then for every character of the string - in order - a text
+    that decodes to exactly that character and contains nothing that ends the literal (or the element), then `"`."""
+    import json as _json
+    from astlib import walk, show
+    problems = []
+    loops = []
+    for n in walk(fn_body):
+        if n["k"] == "ForLoop":
+            it = _flatp(show(n["iter"]))
+            if it in (str_param + ".chars", "&" + str_param + ".chars"):
+                loops.append(n)
+    if len(loops) != 1:
+        return False, ["cannot find the single loop over the characters of `%s` (found %d)" % (str_param, len(loops))], {}
+    loop = loops[0]
+    reps = char_classes(fn_body)
+    tab = escaper_table(loop["body"], loop["pat"], reps)
+    bad = {}
+    for cp, text in tab.items():
+        ch = chr(cp)
+        why = None
+        if text.startswith("UNKNOWN"):
+            why = text
+        else:
+            try:
+                dec = _json.loads('"' + text + '"')
+                if dec != ch:
+                    why = "decodes to %r" % dec
+            except Exception:
+                why = "is not a valid string-literal fragment (%r)" % text
+            if why is None and kind == "js-in-script":
+                if "<" in text:
+                    why = "leaves `<` raw: `</script>` / `<!--` inside a translation would end or comment out the element"
+                elif "\u2028" in text or "\u2029" in text:
+                    why = "leaves a JS line terminator raw"
+        if why:
+            bad[cp] = why
+    for cp, why in sorted(bad.items()):
+        problems.append("U+%04X is written as %r: %s" % (cp, tab[cp], why))
+    # framing: what the function writes around the loop
+    ev = Eval([])
+    ev.skip_loops = True
+    try:
+        try:
+            ev.ex(fn_body, {})
+        except Ret:
+            pass
+        parts = []
+        cur = []
+        for e in ev.out:
+            if e == ("loop",):
+                parts.append(render(cur))
+                cur = []
+            else:
+                cur.append(e)
+        parts.append(render(cur))
+        if parts != ['"', '"']:
+            problems.append("the escaped characters are framed by %r, not by a pair of double quotes" % (parts,))
+    except Unknown as u:
+        problems.append("cannot evaluate the framing of the literal: %s" % u)
+    return not problems, problems, {"classes": len(reps), "sample": {("U+%04X" % k): v for k, v in list(tab.items())[:12]}}
